@@ -165,6 +165,12 @@ def dump_geometry(out, grids, max_elems=12):
                           "coarse_ids": [int(x) for x in grid.elements[:, e]],
                           "edge_ids": [int(x) for x in grid.element_edges[:, e]]})
     out["geom_cases"] = cases
+    # whole element arrays for the connectivity-loop model (vertex ids, exact)
+    out["conn_cases"] = [{"grid": name, "nv": int(grid.number_of_vertices),
+                          "elements": grid.elements.T.astype(int).tolist(),
+                          "element_edges": grid.element_edges.T.astype(int).tolist(),
+                          "bary": grid.barycentric_refinement.elements.T.astype(int).tolist()}
+                         for name, grid, dom in grids if grid.number_of_elements <= 40]
 
 
 def dump_tables(out, grids, thorough, max_elems=4):
